@@ -105,7 +105,12 @@ type runner struct {
 	dlogs   *observer.ObservedLogs
 	dlogger *zap.Logger
 	checked *[]string // the message every accepted entry had when the core took its Check decision
+	// a core that enables an application-defined level below Debug through a function enabler (and Info and up)
+	tlogs   *observer.ObservedLogs
+	tlogger *zap.Logger
 }
+
+const traceLevel = zapcore.DebugLevel - 1
 
 // spyCore records the message an entry carries at the moment the core decides on it:
 // cores may decide by message (samplers, filters), so the line must already be there.
@@ -127,7 +132,8 @@ func newRunner() *runner {
 	c, l := observer.New(zap.DebugLevel)
 	dc, dl := observer.New(zap.ErrorLevel)
 	checked := new([]string)
-	return &runner{logs: l, logger: zap.New(spyCore{c, checked}), dlogs: dl, dlogger: zap.New(spyCore{dc, checked}), checked: checked}
+	tc, tl := observer.New(zap.LevelEnablerFunc(func(l zapcore.Level) bool { return l == traceLevel || l >= zapcore.InfoLevel }))
+	return &runner{tlogs: tl, tlogger: zap.New(spyCore{tc, checked}), logs: l, logger: zap.New(spyCore{c, checked}), dlogs: dl, dlogger: zap.New(spyCore{dc, checked}), checked: checked}
 }
 
 // exec runs the plan against a fresh zapio.Writer; returns a description of the first mismatch.
@@ -140,6 +146,9 @@ func (r *runner) exec(st []step, level zapcore.Level, disabled bool) (msg string
 	lg, logs := r.logger, r.logs
 	if disabled {
 		lg, logs = r.dlogger, r.dlogs
+	}
+	if level == traceLevel {
+		lg, logs = r.tlogger, r.tlogs
 	}
 	w := &zapio.Writer{Log: lg, Level: level}
 	*r.checked = (*r.checked)[:0]
@@ -254,7 +263,7 @@ func main() {
 	gen(nil)
 	// special streams: multi-byte rune split across writes, invalid bytes, a very long line
 	long := strings.Repeat("L", 5000)
-	special := []string{"é\n€x", "a\xffb\n\x80", "\xe2\x82", long + "\nq", "x\n" + long, "\r\n\r\n", "a\x00b\n\x00"}
+	special := []string{"\xef\xbb\xbfabc\nq", "\xef\xbb\xbf", "\xef\xbb\xbf\n\xef\xbb\xbfx\n", "\xff\xfea\n", "é\n€x", "a\xffb\n\x80", "\xe2\x82", long + "\nq", "x\n" + long, "\r\n\r\n", "a\x00b\n\x00"}
 	report := func(stream string, st []step, level zapcore.Level, disabled bool, msg string) {
 		key := "split:" + planStr(st)
 		if len(key) > 300 {
@@ -302,6 +311,13 @@ func main() {
 				e++
 				if msg := r.exec(st, zap.WarnLevel, false); msg != "" {
 					report(stream, st, zap.WarnLevel, false, msg)
+				}
+			}
+			if si%13 == 0 {
+				// an application-defined level below Debug that the core enables through a function enabler
+				e++
+				if msg := r.exec(st, traceLevel, false); msg != "" {
+					report(stream, st, traceLevel, false, msg)
 				}
 			}
 			// next cut pattern
@@ -448,7 +464,8 @@ func main() {
 		evals.Add(e)
 	})
 	sample = append(sample, map[string]any{"special_stream": "é\\n€x split inside the multi-byte runes"})
-	run.Assume = []string{"stream alphabet {a,b,LF} up to the stated length plus listed special streams (multi-byte, invalid UTF-8, NUL, CR, 5000-byte line, a 70000-byte line cut around the 32 KiB / 64 KiB marks); a line of every length up to the stated maximum cut in two at every position, and in three around the 64..1024-byte marks",
+	run.Assume = []string{"stream alphabet {a,b,LF} up to the stated length plus listed special streams (a leading byte order mark, multi-byte, invalid UTF-8, NUL, CR, 5000-byte line, a 70000-byte line cut around the 32 KiB / 64 KiB marks); a line of every length up to the stated maximum cut in two at every position, and in three around the 64..1024-byte marks",
+		"Writer.Level is also an application-defined level below Debug that the core enables through a function enabler (every 13th stream, every cut pattern)",
 		"the logger's core records the message each entry carries when Check decides on it: it must already be the line (cores may decide by message)"}
 	run.Finish(map[string]any{
 		"states":                        len(states),
